@@ -1,5 +1,6 @@
 """Seams: rebinding of module-level names in /repo/playback that reach nondeterminism (DESIGN.md section 1)."""
 import contextlib
+import datetime as _dt
 import importlib
 import random
 
@@ -48,15 +49,67 @@ def rebind(pairs):
             setattr(mod, attr, old)
 
 
+class VClock(object):
+    """Virtual wall clock.  `now` is seconds since the Unix epoch (UTC); every reading advances it by `tick`
+    so that durations are positive and strictly monotonic; `advance` models elapsed time."""
+
+    def __init__(self, start=1577880000.0, tick=0.001):     # 2020-01-01 12:00:00 UTC
+        self.now = start
+        self.tick = tick
+        self.reads = 0
+
+    def time(self):
+        self.reads += 1
+        self.now += self.tick
+        return self.now
+
+    def advance(self, seconds):
+        self.now += seconds
+
+    def set(self, dt):
+        self.now = (dt - _dt.datetime(1970, 1, 1)).total_seconds()
+
+    def utc(self):
+        return _dt.datetime(1970, 1, 1) + _dt.timedelta(seconds=self.now)
+
+    def datetime_class(self):
+        clock = self
+
+        class VDateTime(_dt.datetime):
+            @classmethod
+            def utcnow(cls):
+                return clock.utc()
+
+            @classmethod
+            def today(cls):
+                return clock.utc()      # the process clock is UTC (assumption stated by C16)
+
+            @classmethod
+            def now(cls, tz=None):
+                return clock.utc()
+        return VDateTime
+
+
+def clock_pairs(clock):
+    dtc = clock.datetime_class()
+    return [
+        ('playback.tape_recorder', 'time', clock.time),
+        ('playback.tape_recorder', 'datetime', dtc),
+        ('playback.utils.timing_utils', 'time', clock.time),
+        ('playback.tape_cassettes.s3.s3_tape_cassette', 'datetime', dtc),
+    ]
+
+
 @contextlib.contextmanager
-def deterministic(tape=None, extra=()):
-    """Deterministic recording ids and global `random` for the duration of one run."""
+def deterministic(tape=None, extra=(), clock=None):
+    """Deterministic recording ids, wall clock and global `random` for the duration of one run."""
     counter = UUIDCounter()
-    pairs = [(m, 'uuid', counter) for m in UUID_MODULES] + list(extra)
+    clock = clock or VClock()
+    pairs = [(m, 'uuid', counter) for m in UUID_MODULES] + clock_pairs(clock) + list(extra)
     state = random.getstate()
     random.seed(12345 if tape is None else tape.fork_seed())
     try:
         with rebind(pairs):
-            yield counter
+            yield clock
     finally:
         random.setstate(state)
